@@ -106,33 +106,23 @@ theorem C05_inv_unique {ix ix' : Index T} {c c' : Corpus T} (h : TextInv ix c) (
     obtain ⟨h1', h2', _⟩ := h'.doc_some id r' hr'
     refine ⟨by rw [h1, h1', hc], fun t => by rw [h2, h2', hc]⟩
 
+/-- "computed from scratch": feeding the live non-empty documents of any corpus to an empty index
+as one batch yields an index with that corpus' statistics; by `C05_inv_unique` the index reached
+through any history is observably that index. -/
+theorem C05_scratch (c : Corpus T) (h : c.WF) :
+    TextInv (applyBatch ({} : Index T) c) (Corpus.apply [] c) ∧ ∀ id, (Corpus.apply [] c).get id = c.get id := by
+  refine ⟨applyBatch_inv TextInv.empty c, ?_⟩
+  intro id
+  rw [Corpus.get_apply]
+  unfold lastOf
+  rw [filter_key_nodup h.nodup]
+  unfold Corpus.get
+  cases alookup c id <;> simp [alookup]
+
 /-! ### the order inside a batch
 
 `parallelAnalyse` hands the documents of a batch to `NumCPU-1` workers and merges their outputs
 without order, so `processAnalysedDoc` sees the batch in *some* order. -/
-
-/-- the last change a batch makes to `id` -/
-def lastOf (b : List (Doc T)) (id : Id) : Option (List T) :=
-  ((b.filter (fun d => decide (d.1 = id))).getLast?).map (·.2)
-
-theorem Corpus.get_apply (c : Corpus T) (b : List (Doc T)) (id : Id) :
-    (c.apply b).get id = (lastOf b id).getD (c.get id) := by
-  induction b generalizing c with
-  | nil => simp [Corpus.apply, lastOf]
-  | cons d rest ih =>
-    have : c.apply (d :: rest) = (c.set d.1 d.2).apply rest := by simp [Corpus.apply]
-    rw [this, ih, Corpus.get_set]
-    unfold lastOf
-    by_cases hd : d.1 = id
-    · simp only [hd, if_true, List.filter_cons, decide_true]
-      cases hf : List.filter (fun d => decide (d.1 = id)) rest with
-      | nil => simp
-      | cons e es =>
-        rw [List.getLast?_cons_cons]
-        cases hl : (e :: es).getLast? with
-        | none => simp at hl
-        | some x => simp
-    · simp [hd]
 
 /-- **forced hypothesis.** If two arrival orders of a batch agree on the relative order of the
 changes to each single point, they leave the same corpus — hence (by `C05_maintain`,
